@@ -1,10 +1,13 @@
 /-
 Lemmas/MatBridge.lean — bridge between the list-of-rows matrices of `Model/Linalg.lean` and Mathlib's
 `Matrix (Fin n) (Fin m) ℚ`: `toMatrix`, `toVec`, well-formedness `WF n m X` (n rows of length m) and homomorphism
-lemmas for `mul`, `add`, `sub`, `identity`, `transpose`, `diag`, `vecMat`, `List.replicate`, row sums.
+lemmas for `mul`, `add`, `sub`, `identity`, `transpose`, `diag`, `vecMat`, `List.replicate`, row sums; and the correctness of the Gauss–Jordan routine `Linalg.inverse`
+(`inverse_correct`: a returned matrix is a well-formed two-sided inverse).
 Nothing here is specific to a particular property.
 -/
 import Mathlib.Data.Matrix.Mul
+import Mathlib.LinearAlgebra.Matrix.NonsingularInverse
+import Mathlib.Algebra.BigOperators.Field
 import Mathlib.Algebra.BigOperators.Fin
 import Mathlib.Algebra.Order.Ring.Rat
 import MsmVerif.Model.Linalg
@@ -259,5 +262,273 @@ theorem rowSum_eq_mulVec_one {n m : ℕ} {X : Mat} (hX : WF n m X) (i : Fin n) :
 
 theorem sum_eq_toVec {n : ℕ} {v : Vec} (hv : v.length = n) : v.sum = ∑ i, toVec n v i :=
   sum_eq_sum_fin v hv
+
+/-! ## Gauss–Jordan inverse -/
+
+/-! ### shape of the Gauss–Jordan inverse -/
+
+theorem wf_gjStep {n k : ℕ} {aug aug' : Mat} (h : WF n k aug) {c : ℕ} (hc : c < n)
+    (hs : gjStep aug c = some aug') : WF n k aug' := by
+  unfold Linalg.gjStep at hs
+  simp only [h.1] at hs
+  split at hs
+  · exact absurd hs (by simp)
+  · rename_i p hp
+    have hpn : p < n := by
+      have := List.mem_of_mem_head? hp
+      simp only [List.mem_filter, List.mem_range] at this
+      exact this.1
+    simp only [Option.some.injEq] at hs
+    subst hs
+    refine ⟨by simp, ?_⟩
+    intro row hrow
+    simp only [List.mem_map, List.mem_range] at hrow
+    obtain ⟨r, hr, rfl⟩ := hrow
+    have hP : (aug.getD p []).length = k := h.getD_length hpn
+    have hC : (aug.getD c []).length = k := h.getD_length hc
+    split
+    · simpa using hP
+    · have hsw : WF n k ((aug.set p (aug.getD c [])).set c (aug.getD p [])) := by
+        refine ⟨by simpa using h.1, ?_⟩
+        intro row hrow
+        rcases List.mem_or_eq_of_mem_set hrow with h1 | h1
+        · rcases List.mem_or_eq_of_mem_set h1 with h2 | h2
+          · exact h.2 _ h2
+          · rw [h2, hC]
+        · rw [h1, hP]
+      simp only [List.length_map, List.length_zip, hsw.getD_length hr, hP, Nat.min_self]
+
+theorem wf_inverse {n : ℕ} {X Z : Mat} (h : WF n n X) (hZ : inverse X = some Z) : WF n n Z := by
+  unfold Linalg.inverse at hZ
+  simp only [h.1, Option.map_eq_some_iff] at hZ
+  obtain ⟨a, ha, rfl⟩ := hZ
+  have h0 : WF n (n + n) ((List.zip X (identity n)).map (fun p => p.1 ++ p.2)) := by
+    refine ⟨by simp [h.1, (WF.identity n).1], ?_⟩
+    intro row hrow
+    simp only [List.mem_map] at hrow
+    obtain ⟨⟨x, y⟩, hxy, rfl⟩ := hrow
+    have := List.of_mem_zip hxy
+    simp [h.2 x this.1, (WF.identity n).2 y this.2]
+  have key : ∀ (l : List ℕ) (acc : Option Mat), (∀ c ∈ l, c < n) → (∀ a, acc = some a → WF n (n + n) a) →
+      ∀ a, l.foldl (fun (acc : Option Mat) c => acc.bind (fun a => gjStep a c)) acc = some a → WF n (n + n) a := by
+    intro l
+    induction l with
+    | nil => intro acc _ hacc a ha; exact hacc a ha
+    | cons c l ih =>
+      intro acc hl hacc a ha
+      rw [List.foldl_cons] at ha
+      refine ih _ (fun c' hc' => hl c' (List.mem_cons_of_mem _ hc')) ?_ a ha
+      intro b hb
+      rw [Option.bind_eq_some_iff] at hb
+      obtain ⟨a0, ha0, hstep⟩ := hb
+      exact wf_gjStep (hacc a0 ha0) (hl c List.mem_cons_self) hstep
+  have hw := key (List.range n) _ (fun c hc => List.mem_range.mp hc) (fun a ha => by cases ha; exact h0) a ha
+  refine ⟨by simpa using hw.1, ?_⟩
+  intro row hrow
+  simp only [List.mem_map] at hrow
+  obtain ⟨r, hr, rfl⟩ := hrow
+  simp [hw.2 r hr]
+
+/-- the certificate check `isInverse` means `X * Y = 1` -/
+theorem isInverse_iff {n : ℕ} {X Y : Mat} (hX : WF n n X) (hY : WF n n Y) :
+    isInverse X Y = true ↔ toMatrix n n X * toMatrix n n Y = 1 := by
+  unfold isInverse
+  rw [beq_iff_eq, hX.1, ← toMatrix_mul hX hY, ← toMatrix_identity]
+  constructor
+  · intro h; rw [h]
+  · intro h
+    rcases Nat.eq_zero_or_pos n with hn | hn
+    · subst hn
+      have : X = [] := List.eq_nil_of_length_eq_zero hX.1
+      subst this
+      rfl
+    · exact WF.ext_toMatrix (hX.mul hY hn) (WF.identity n) h
+
+/-! ### entrywise description of one elimination round and the two invariants -/
+
+theorem gjStep_spec {n k : ℕ} {aug aug' : Mat} (h : WF n k aug) {c : ℕ} (hc : c < n)
+    (hs : gjStep aug c = some aug') :
+    ∃ p, c ≤ p ∧ p < n ∧ entry aug p c ≠ 0 ∧ ∀ r j, r < n → j < k →
+      entry aug' r j = if r = c then entry aug p j / entry aug p c
+        else (entry aug (if r = p then c else r) j
+              - entry aug (if r = p then c else r) c * (entry aug p j / entry aug p c)) := by
+  unfold Linalg.gjStep at hs
+  simp only [h.1] at hs
+  split at hs
+  · exact absurd hs (by simp)
+  · rename_i p hp
+    have hmem := List.mem_of_mem_head? hp
+    simp only [List.mem_filter, List.mem_range, Bool.and_eq_true, decide_eq_true_eq, bne_iff_ne] at hmem
+    obtain ⟨hpn, hcp, hpiv⟩ := hmem
+    refine ⟨p, hcp, hpn, hpiv, ?_⟩
+    simp only [Option.some.injEq] at hs
+    subst hs
+    intro r j hr hj
+    have hlenD : ∀ q, q < n → (aug[q]?.getD []).length = k := by
+      intro q hq
+      have := h.getD_length hq
+      rwa [List.getD_eq_getElem?_getD] at this
+    have hP := hlenD p hpn
+    by_cases hrc : r = c
+    · subst hrc
+      have hj' : j < (aug[p]?.getD []).length := hP ▸ hj
+      simp [entry, List.getD_eq_getElem?_getD, hr, hj']
+    · have hsw : ((aug.set p (aug[c]?.getD [])).set c (aug[p]?.getD []))[r]?.getD []
+          = aug[if r = p then c else r]?.getD [] := by
+        rw [List.getElem?_set, if_neg (Ne.symm hrc), List.getElem?_set]
+        by_cases hrp : r = p
+        · subst hrp
+          simp [h.1, hr]
+        · simp [hrp, Ne.symm hrp]
+      have hq : (if r = p then c else r) < n := by split <;> assumption
+      have hR := hlenD _ hq
+      simp only [entry, List.getD_eq_getElem?_getD, List.getElem?_map, List.getElem?_range hr, Option.map_some,
+        Option.getD_some, if_neg hrc, hsw]
+      generalize aug[if r = p then c else r]?.getD [] = row at hR ⊢
+      have hj1 : j < row.length := hR ▸ hj
+      have hj2 : j < (aug[p]?.getD []).length := hP ▸ hj
+      simp [hj1, hj2]
+
+/-- left block = right block · X, row by row -/
+def GJLin (n : ℕ) (X a : Mat) : Prop :=
+  ∀ r j, r < n → j < n → entry a r j = ∑ k : Fin n, entry a r (n + k) * entry X k j
+
+/-- the first `c` columns are unit vectors -/
+def GJCols (n c : ℕ) (a : Mat) : Prop :=
+  ∀ r j, r < n → j < c → entry a r j = if r = j then 1 else 0
+
+theorem gjStep_lin {n : ℕ} {X a a' : Mat} (h : WF n (n + n) a) {c : ℕ} (hc : c < n)
+    (hs : gjStep a c = some a') (h1 : GJLin n X a) : GJLin n X a' := by
+  obtain ⟨p, hcp, hpn, hpiv, hsp⟩ := gjStep_spec h hc hs
+  intro r j hr hj
+  have hjk : j < n + n := by omega
+  rw [hsp r j hr hjk]
+  have hR : ∀ k : Fin n, entry a' r (n + k) = _ := fun k => hsp r (n + k) hr (by omega)
+  simp only [hR]
+  by_cases hrc : r = c
+  · simp only [if_pos hrc]
+    rw [h1 p j hpn hj, Finset.sum_div]
+    apply Finset.sum_congr rfl
+    intro k _
+    ring
+  · simp only [if_neg hrc]
+    have hq : (if r = p then c else r) < n := by split <;> assumption
+    generalize (if r = p then c else r) = q at hq ⊢
+    rw [h1 q j hq hj, h1 p j hpn hj]
+    have : ∀ k : Fin n, (entry a q (n + k) - entry a q c * (entry a p (n + k) / entry a p c)) * entry X k j
+        = entry a q (n + k) * entry X k j
+          - (entry a q c / entry a p c) * (entry a p (n + k) * entry X k j) := by
+      intro k; ring
+    simp only [this, Finset.sum_sub_distrib, ← Finset.mul_sum]
+    ring
+
+theorem gjStep_cols {n : ℕ} {a a' : Mat} (h : WF n (n + n) a) {c : ℕ} (hc : c < n)
+    (hs : gjStep a c = some a') (h2 : GJCols n c a) : GJCols n (c + 1) a' := by
+  obtain ⟨p, hcp, hpn, hpiv, hsp⟩ := gjStep_spec h hc hs
+  intro r j hr hj
+  rw [hsp r j hr (by omega)]
+  rcases Nat.lt_succ_iff_lt_or_eq.mp hj with hjc | hjc
+  · have hp0 : entry a p j = 0 := by
+      rw [h2 p j hpn hjc, if_neg (by omega)]
+    by_cases hrc : r = c
+    · rw [if_pos hrc, hp0, zero_div, if_neg (by omega)]
+    · rw [if_neg hrc, hp0, zero_div, mul_zero, sub_zero]
+      by_cases hrp : r = p
+      · rw [if_pos hrp, h2 c j hc hjc, if_neg (by omega), if_neg (by omega)]
+      · rw [if_neg hrp, h2 r j hr hjc]
+  · subst hjc
+    by_cases hrc : r = j
+    · rw [if_pos hrc, if_pos hrc, div_self hpiv]
+    · rw [if_neg hrc, if_neg hrc, div_self hpiv, mul_one, sub_self]
+
+/-- the augmented matrix `[X | 1]` -/
+def gjAug (X : Mat) : Mat := (List.zip X (identity X.length)).map (fun p => p.1 ++ p.2)
+
+/-- the first `c` elimination rounds -/
+def gjFold (X : Mat) (c : ℕ) : Option Mat :=
+  (List.range c).foldl (fun (acc : Option Mat) c => acc.bind (fun a => gjStep a c)) (some (gjAug X))
+
+theorem inverse_eq (X : Mat) :
+    inverse X = (gjFold X X.length).map (fun a => a.map (fun row => row.drop X.length)) := rfl
+
+theorem gjFold_succ (X : Mat) (c : ℕ) : gjFold X (c + 1) = (gjFold X c).bind (fun a => gjStep a c) := by
+  simp [gjFold, List.range_succ]
+
+theorem wf_gjAug {n : ℕ} {X : Mat} (h : WF n n X) : WF n (n + n) (gjAug X) := by
+  unfold gjAug
+  rw [h.1]
+  refine ⟨by simp [h.1, (WF.identity n).1], ?_⟩
+  intro row hrow
+  simp only [List.mem_map] at hrow
+  obtain ⟨⟨x, y⟩, hxy, rfl⟩ := hrow
+  have := List.of_mem_zip hxy
+  simp [h.2 x this.1, (WF.identity n).2 y this.2]
+
+theorem entry_gjAug {n : ℕ} {X : Mat} (h : WF n n X) {r j : ℕ} (hr : r < n) :
+    entry (gjAug X) r j = if j < n then entry X r j else entry (identity n) r (j - n) := by
+  have hr1 : r < X.length := h.1 ▸ hr
+  have hr2 : r < (identity n).length := (WF.identity n).1.symm ▸ hr
+  have hl : (X[r]).length = n := h.2 _ (List.getElem_mem hr1)
+  unfold gjAug
+  rw [h.1]
+  have hz : (List.zip X (identity n))[r]? = some (X[r], (identity n)[r]) := by
+    rw [List.getElem?_eq_getElem (by simp [hr1, hr2])]; simp
+  simp only [entry, List.getD_eq_getElem?_getD, List.getElem?_map, hz, Option.map_some, Option.getD_some,
+    List.getElem?_eq_getElem hr1, List.getElem?_eq_getElem hr2]
+  rw [List.getElem?_append, hl]
+  split <;> rfl
+
+theorem gjFold_inv {n : ℕ} {X : Mat} (h : WF n n X) :
+    ∀ c, c ≤ n → ∀ a, gjFold X c = some a → WF n (n + n) a ∧ GJLin n X a ∧ GJCols n c a := by
+  intro c
+  induction c with
+  | zero =>
+    intro _ a ha
+    simp only [gjFold, List.range_zero, List.foldl_nil, Option.some.injEq] at ha
+    subst ha
+    refine ⟨wf_gjAug h, ?_, fun r j _ hj => absurd hj (Nat.not_lt_zero _)⟩
+    intro r j hr hj
+    rw [entry_gjAug h hr, if_pos hj]
+    have : ∀ k : Fin n, entry (gjAug X) r (n + k) = if r = k then 1 else 0 := by
+      intro k
+      rw [entry_gjAug h hr, if_neg (by omega), Nat.add_sub_cancel_left]
+      have := congrFun (congrFun (toMatrix_identity n) ⟨r, hr⟩) k
+      simpa [Matrix.one_apply, Fin.ext_iff] using this
+    simp only [this]
+    rw [Finset.sum_eq_single ⟨r, hr⟩]
+    · simp
+    · intro b _ hb
+      have : ¬ r = (b : ℕ) := fun e => hb (Fin.ext e.symm)
+      simp [this]
+    · intro hh; exact absurd (Finset.mem_univ _) hh
+  | succ c ih =>
+    intro hc a ha
+    rw [gjFold_succ, Option.bind_eq_some_iff] at ha
+    obtain ⟨a0, ha0, hstep⟩ := ha
+    obtain ⟨w0, l0, c0⟩ := ih (by omega) a0 ha0
+    exact ⟨wf_gjStep w0 (by omega) hstep, gjStep_lin w0 (by omega) hstep l0, gjStep_cols w0 (by omega) hstep c0⟩
+
+/-- **Gauss–Jordan is correct**: whenever `inverse X` succeeds on a well-formed square matrix, the result is a
+well-formed two-sided inverse. -/
+theorem inverse_correct {n : ℕ} {X Z : Mat} (h : WF n n X) (hZ : inverse X = some Z) :
+    WF n n Z ∧ toMatrix n n X * toMatrix n n Z = 1 ∧ toMatrix n n Z * toMatrix n n X = 1 := by
+  have wZ := wf_inverse h hZ
+  rw [inverse_eq, h.1, Option.map_eq_some_iff] at hZ
+  obtain ⟨a, ha, rfl⟩ := hZ
+  obtain ⟨wa, hl, hcs⟩ := gjFold_inv h n (Nat.le_refl n) a ha
+  have hent : ∀ r k, r < n → entry (a.map (fun row => row.drop n)) r k = entry a r (n + k) := by
+    intro r k hr
+    have hr' : r < a.length := wa.1 ▸ hr
+    simp [entry, List.getD_eq_getElem?_getD, hr']
+  have hleft : toMatrix n n (a.map (fun row => row.drop n)) * toMatrix n n X = 1 := by
+    ext i j
+    simp only [Matrix.mul_apply, toMatrix_apply, hent _ _ i.2]
+    rw [← hl i j i.2 j.2, hcs i j i.2 j.2]
+    simp [Matrix.one_apply, Fin.ext_iff]
+  exact ⟨wZ, mul_eq_one_comm.mp hleft, hleft⟩
+
+theorem isInverse_inverse {n : ℕ} {X Z : Mat} (h : WF n n X) (hZ : inverse X = some Z) : isInverse X Z = true := by
+  obtain ⟨wZ, hr, -⟩ := inverse_correct h hZ
+  exact (isInverse_iff h wZ).mpr hr
 
 end MsmVerif.Bridge
